@@ -125,6 +125,27 @@ func finalizeAndRespond(r responder.Responder, resp io.Reader, status int, req *
 }
 
 func (p *Proxy) handleRangeRequest(r responder.Responder, req *http.Request, cached *cache.Entry[cachedRequestInfo], key cache.CacheKey, clientHd *headers.HeaderDirectives) error {
+	// If-Range is evaluated first: on a mismatch the Range header must be ignored, even an unsatisfiable one.
+	if clientHd.IfRange.IsPresent() {
+		ifRange := clientHd.IfRange.Value()
+		if ifRange.IsLeft() {
+			// IfRange is ETag
+			etagIfRange := ifRange.ForceUnwrapLeft()
+			if etagIfRange != cached.Metadata.Object.ETag {
+				slog.Info("If-Range does not match cached ETag. Sending full 200 response.", "url", req.URL, "key", key)
+				return ErrIfRangeMismatch
+			}
+		} else {
+			// IfRange is Time
+			timeIfRange := ifRange.ForceUnwrapRight()
+			if timeIfRange.Before(cached.Metadata.Object.LastModified) {
+				slog.Info("If-Range does not match cached Last-Modified. Sending full 200 response.", "url", req.URL, "key", key)
+				return ErrIfRangeMismatch
+			}
+		}
+
+	}
+
 	rangeHeader := clientHd.Range.Value()
 	start, end, err := rangeHeader.SliceSize(cached.Metadata.Size)
 	if err != nil {
@@ -154,26 +175,6 @@ func (p *Proxy) handleRangeRequest(r responder.Responder, req *http.Request, cac
 
 		r.SetHeaders(header)
 		return finalizeAndRespond(r, data, status, req)
-	}
-
-	if clientHd.IfRange.IsPresent() {
-		ifRange := clientHd.IfRange.Value()
-		if ifRange.IsLeft() {
-			// IfRange is ETag
-			etagIfRange := ifRange.ForceUnwrapLeft()
-			if etagIfRange != cached.Metadata.Object.ETag {
-				slog.Info("If-Range does not match cached ETag. Sending full 200 response.", "url", req.URL, "key", key)
-				return ErrIfRangeMismatch
-			}
-		} else {
-			// IfRange is Time
-			timeIfRange := ifRange.ForceUnwrapRight()
-			if timeIfRange.Before(cached.Metadata.Object.LastModified) {
-				slog.Info("If-Range does not match cached Last-Modified. Sending full 200 response.", "url", req.URL, "key", key)
-				return ErrIfRangeMismatch
-			}
-		}
-
 	}
 
 	length := end - start + 1
